@@ -293,6 +293,11 @@ def drive_time(job):
                 x = off + (1000 * s + dl) / 86400000
                 for fn, w in zip(('HOUR', 'MINUTE', 'SECOND'), want):
                     j.check(fn, (x,), [['N', w]])
+            # the last half second of the day reads as 00:00:00, never 24:00:00
+            for dl, clock in vec.get('roll', ()):
+                x = off + (1000 * s + dl) / 86400000
+                for fn, w in zip(('HOUR', 'MINUTE', 'SECOND'), clock):
+                    j.check(fn, (x,), [['N', w]])
     return j
 
 
